@@ -40,6 +40,7 @@ type Prog struct {
 	aeShared *aeShared
 	aeResults map[string]*aeEcoResult
 	keyFieldCache map[string]map[string]bool
+	ecoFieldCache map[string]*ecoFields
 }
 
 // Eco is one ecosystem package, discovered by shape.
